@@ -21,6 +21,7 @@ struct cfg {
   int inject_at;
   int release_at; /* >=0: the application releases the session after this many events */
   int sni;
+  int nohint;     /* the server is configured without an identity hint */
   int sni_case;   /* SV_SNI only: which name / key the second client uses (see sni_cases) */
   int bound;
   int free_drops; /* drops of the first N datagrams cost nothing */
@@ -363,7 +364,7 @@ run(void *arg) {
   memset(&spsk, 0, sizeof spsk);
   spsk.version = COAP_DTLS_SPSK_SETUP_VERSION;
   spsk.psk_info.hint.s = (const uint8_t *)"h";
-  spsk.psk_info.hint.length = 1;
+  spsk.psk_info.hint.length = C->nohint ? 0 : 1;
   spsk.psk_info.key.s = K1;
   spsk.psk_info.key.length = 16;
   if (C->sv == SV_TABLE)
@@ -554,8 +555,8 @@ static int ncfgs;
 static void
 add(struct cfg c) {
   cfgs = realloc(cfgs, sizeof *cfgs * (size_t)(ncfgs + 1));
-  snprintf(c.name, sizeof c.name, "c19:sv=%d,cl=%s,ncon=%d,non=%d,inj=%d@%d,rel=%d,sni=%d/%d,fd=%d,B=%d", c.sv, cl_names[c.cl], c.ncon, c.with_non, c.inject,
-           c.inject_at, c.release_at, c.sni, c.sni_case, c.free_drops, c.bound);
+  snprintf(c.name, sizeof c.name, "c19:sv=%d,cl=%s,ncon=%d,non=%d,inj=%d@%d,rel=%d,sni=%d/%d,nh=%d,fd=%d,B=%d", c.sv, cl_names[c.cl], c.ncon, c.with_non, c.inject,
+           c.inject_at, c.release_at, c.sni, c.sni_case, c.nohint, c.free_drops, c.bound);
   cfgs[ncfgs++] = c;
 }
 
@@ -573,6 +574,12 @@ main(int argc, char **argv) {
           c.bound = 1;
         add(c);
       }
+  /* a server without identity hint: the client's hint callback still decides (it sees the empty hint) */
+  for (int sv = 0; sv < 2; sv++)
+    for (int cl = 0; cl < CL_NCLASSES; cl++) {
+      struct cfg c = {.sv = sv, .cl = cl, .ncon = 1, .release_at = -1, .nohint = 1, .bound = T ? 2 : 1};
+      add(c);
+    }
   /* key chosen by SNI; a first client has put one name into the server's SNI credential cache */
   for (int k = 0; k < N_SNI_CASES; k++) {
     struct cfg c = {.sv = SV_SNI, .cl = CL_MATCH, .ncon = 1, .release_at = -1, .sni_case = k, .bound = T ? 2 : 1};
@@ -606,7 +613,7 @@ main(int argc, char **argv) {
   }
   vx_ev_rule("real GnuTLS DTLS-PSK client and server contexts of libcoap over the simulated network with a virtual clock; product of server key "
              "table {single key, identity table} x client credentials {match, wrong key, prefix key, longer key, unknown identity, client rejects "
-             "hint, second identity} x queued requests {1 CON, 3 CON + 1 NON} x SNI; a server choosing the key by SNI callback (two names with own keys, default key without SNI) "
+             "hint, second identity} x queued requests {1 CON, 3 CON + 1 NON} x SNI; the same product with a server that sends no identity hint; a server choosing the key by SNI callback (two names with own keys, default key without SNI) "
              "after a first client has completed a handshake under one name, x 9 (name, key) combinations of the second client incl. prefix / "
              "longer / other-case / absent names; all schedules with <= bound drop/duplicate/reorder deviations "
              "over the first 14 datagrams; cleartext CoAP injected from the client's and a third address at each step; application release "
